@@ -107,6 +107,21 @@ func (p *authProxy) DeleteAuthorization(ctx context.Context, id platform.ID) err
 	return p.cur.DeleteAuthorization(ctx, id)
 }
 
+// sessProxy is the real session.Service plus a hook that runs right after a successful
+// FindSession (to let a sign-out land between the middleware's find and its renew).
+type sessProxy struct {
+	*session.Service
+	afterFind func(key string)
+}
+
+func (p *sessProxy) FindSession(ctx context.Context, key string) (*influxdb.Session, error) {
+	ss, err := p.Service.FindSession(ctx, key)
+	if err == nil && p.afterFind != nil {
+		p.afterFind(key)
+	}
+	return ss, err
+}
+
 type seen struct {
 	reached bool
 	kind    string
@@ -125,6 +140,8 @@ type stack struct {
 	sstore *inmem.SessionStore
 	sstg   *session.Storage
 	ssvc   *session.Service
+	sprox  *sessProxy
+	held   map[int]*influxdb.Session // session objects a caller got earlier (from create / FindSession)
 	hRenew *ihttp.AuthenticationHandler
 	hNo    *ihttp.AuthenticationHandler
 	last   *seen
@@ -196,10 +213,12 @@ func newStack(strong, uh bool, hv int) (*stack, error) {
 	s.sstore = inmem.NewSessionStore()
 	s.sstg = session.NewStorage(s.sstore)
 	s.ssvc = session.NewService(s.sstg, s.ts.UserService, s.ts.UserResourceMappingService, s.auth)
+	s.sprox = &sessProxy{Service: s.ssvc}
+	s.held = map[int]*influxdb.Session{}
 	mk := func(noRenew bool) *ihttp.AuthenticationHandler {
 		h := ihttp.NewAuthenticationHandler(log, kithttp.NewErrorHandler(log))
 		h.AuthorizationService = s.auth
-		h.SessionService = s.ssvc
+		h.SessionService = s.sprox
 		h.UserService = s.ts.UserService
 		h.SessionRenewDisabled = noRenew
 		h.Handler = http.HandlerFunc(func(w http.ResponseWriter, r *http.Request) {
@@ -573,7 +592,9 @@ func (s *stack) exec(strong bool, o *jop) string {
 		key, kt := s.eval(o.Key)
 		id := platform.ID(5000 + len(s.sessions))
 		now := time.Now()
-		err := s.sstg.CreateSession(ctx, &influxdb.Session{ID: id, Key: key, CreatedAt: now, ExpiresAt: now.Add(time.Duration(o.Off) * time.Millisecond), UserID: s.userID(o.U)})
+		obj := &influxdb.Session{ID: id, Key: key, CreatedAt: now, ExpiresAt: now.Add(time.Duration(o.Off) * time.Millisecond), UserID: s.userID(o.U)}
+		err := s.sstg.CreateSession(ctx, obj)
+		s.held[len(s.sessions)] = obj
 		o.Obs = []uint64{0}
 		if err != nil {
 			o.Obs = []uint64{3}
@@ -617,6 +638,45 @@ func (s *stack) exec(strong bool, o *jop) string {
 			}
 		}
 		return fmt.Sprintf("(OS sym (RenewSess sym %s %s))", kt, vh.Z(o.Off))
+	case "find_sess":
+		key, kt := s.eval(o.Key)
+		ss, err := s.ssvc.FindSession(ctx, key)
+		if err != nil {
+			o.Obs = []uint64{4}
+		} else {
+			i := idxOf(s.sessions, ss.ID)
+			o.Obs = []uint64{100 + i}
+			if i != 999 {
+				s.held[int(i)] = ss
+			}
+		}
+		return fmt.Sprintf("(OS sym (FindSess sym %s))", kt)
+	case "renew_by_id": // RenewSession with a session OBJECT obtained earlier (possibly stale)
+		obj := s.held[o.ID]
+		if obj == nil {
+			obj = &influxdb.Session{ID: platform.ID(0xabc00000 + uint64(o.ID)), Key: "never", ExpiresAt: time.Now()}
+		}
+		err := s.ssvc.RenewSession(ctx, obj, time.Now().Add(time.Duration(o.Off)*time.Millisecond))
+		o.Obs = []uint64{0}
+		if err != nil {
+			o.Obs = []uint64{4}
+		} else if o.ID < len(s.gSessExp) && s.gSessLive[o.ID] && s.gSessExp[o.ID] > s.gNow && s.gNow+o.Off > s.gSessExp[o.ID] {
+			s.gSessExp[o.ID] = s.gNow + o.Off
+		}
+		return fmt.Sprintf("(OS sym (RenewById sym %s %s))", vh.N(uint64(o.ID)), vh.Z(o.Off))
+	case "probe_race": // cookie request with renewal; a sign-out lands between the middleware's find and renew
+		key, kt := s.eval(o.Key)
+		s.sprox.afterFind = func(k string) { _ = s.ssvc.ExpireSession(ctx, k) }
+		p := &jop{K: "probe", Cookie: o.Key, Renew: true}
+		s.exec(strong, p)
+		s.sprox.afterFind = nil
+		o.Obs = p.Obs
+		for i, k := range s.gSessKey {
+			if k == key {
+				s.gSessLive[i] = false
+			}
+		}
+		return fmt.Sprintf("(ProbeRace sym %s)", kt)
 	case "wait":
 		time.Sleep(time.Duration(o.Off) * time.Millisecond)
 		s.gNow += o.Off
@@ -989,9 +1049,36 @@ func (g *generator) next() []*jop {
 		case 2:
 			ops = append(ops, &jop{K: "renew_sess", Key: key, Off: []int64{farMs, -farMs, 50}[g.pick(3)]})
 		}
-		ops = append(ops, &jop{K: "wait", Off: waitMs}, &jop{K: "probe", Cookie: key, Renew: g.pick(2) == 0})
+		ops = append(ops, &jop{K: "wait", Off: waitMs})
+		if g.pick(2) == 0 { // renew the expired session through the object obtained at creation
+			ops = append(ops, &jop{K: "renew_by_id", ID: len(s.sessions), Off: farMs})
+		}
+		ops = append(ops, &jop{K: "probe", Cookie: key, Renew: g.pick(2) == 0})
 		return ops
+	case k < 75: // a caller holds a session object, the session is signed out, the held object is renewed
+		for i, key := range s.gSessKey {
+			if s.gSessLive[i] && g.pick(2) == 0 {
+				kk := &sspec{T: "plain", S: key}
+				ops := []*jop{{K: "find_sess", Key: kk}}
+				if g.pick(3) != 0 {
+					ops = append(ops, &jop{K: "expire_sess", Key: kk})
+				} // else: control, renewal of a live session
+				ops = append(ops, &jop{K: "renew_by_id", ID: i, Off: []int64{farMs, 2 * farMs, 3 * farMs}[g.pick(3)]},
+					&jop{K: "find_sess", Key: kk}, &jop{K: "probe", Cookie: kk, Renew: g.pick(2) == 0})
+				return ops
+			}
+		}
+		return []*jop{{K: "renew_by_id", ID: 99, Off: farMs}}
+	case k < 76: // the same through the middleware: sign-out between its FindSession and RenewSession,
+		// for a session with less than RenewSessionTime (5 min) left, so that the renewal is not a no-op
+		key := &sspec{T: "plain", S: fmt.Sprintf("sess-%d", g.nsess)}
+		g.nsess++
+		return []*jop{{K: "create_sess", U: g.user(), Key: key, Off: 200000}, {K: "probe_race", Key: key},
+			{K: "probe", Cookie: key, Renew: g.pick(2) == 0}, {K: "find_sess", Key: key}}
 	case k < 77:
+		if g.pick(2) == 0 {
+			return []*jop{{K: "find_sess", Key: g.sessKey()}}
+		}
 		return []*jop{{K: "expire_sess", Key: g.sessKey()}}
 	case k < 80:
 		return []*jop{{K: "renew_sess", Key: g.sessKey(), Off: []int64{farMs, 2 * farMs, 3 * farMs, -farMs}[g.pick(4)]}}
@@ -1036,6 +1123,16 @@ func corpus() []*jcase {
 			{K: "reopen", UH: true, HV: 256}, tok("Token ", pl("tok-0")),
 			{K: "create_auth", U: 0, HTok: &sspec{T: "badphc", S: "$influxdb2-sha256$!!!"}, Active: true}, tok("Token ", &sspec{T: "badphc", S: "$influxdb2-sha256$!!!"}),
 			{K: "create_auth", U: 0, HTok: &sspec{T: "junk", V: 512, S: "QUJD"}, Active: true}, tok("Token ", pl("QUJD")), tok("Token ", pl("tok-0"))}},
+		// a held session object must not revive a signed-out / expired / never stored session (service level and
+		// through the middleware); renewing a live session through a held object is the control
+		{Kind: "hist", UH: true, HV: 256, Ops: []*jop{{K: "create_user"}, {K: "create_sess", U: 0, Key: pl("sess-0"), Off: farMs},
+			{K: "find_sess", Key: pl("sess-0")}, {K: "renew_by_id", ID: 0, Off: 2 * farMs}, {K: "find_sess", Key: pl("sess-0")}, {K: "probe", Cookie: pl("sess-0")},
+			{K: "expire_sess", Key: pl("sess-0")}, {K: "renew_by_id", ID: 0, Off: 3 * farMs}, {K: "find_sess", Key: pl("sess-0")}, {K: "probe", Cookie: pl("sess-0"), Renew: true},
+			{K: "create_sess", U: 0, Key: pl("sess-1"), Off: shortMs}, {K: "wait", Off: waitMs}, {K: "renew_by_id", ID: 1, Off: farMs}, {K: "find_sess", Key: pl("sess-1")}, {K: "probe", Cookie: pl("sess-1")},
+			{K: "create_sess", U: 0, Key: pl("sess-2"), Off: -farMs}, {K: "renew_by_id", ID: 2, Off: farMs}, {K: "probe", Cookie: pl("sess-2")},
+			{K: "create_sess", U: 0, Key: pl("sess-3"), Off: 200000}, {K: "probe", Cookie: pl("sess-3")}, {K: "probe_race", Key: pl("sess-3")},
+			{K: "probe", Cookie: pl("sess-3"), Renew: true}, {K: "find_sess", Key: pl("sess-3")}, {K: "renew_by_id", ID: 99, Off: farMs},
+			{K: "create_sess", U: 0, Key: pl("sess-4"), Off: farMs}, {K: "probe_race", Key: pl("sess-4")}, {K: "probe", Cookie: pl("sess-4")}}},
 		// sessions: cookie, both cookie and token (the token decides), expiry, renewal, inactive user
 		{Kind: "hist", UH: true, HV: 256, Ops: []*jop{{K: "create_user"}, {K: "create_sess", U: 0, Key: pl("sess-0"), Off: farMs},
 			{K: "probe", Cookie: pl("sess-0")}, {K: "probe", Cookie: pl("sess-0"), Renew: true}, {K: "probe", Cookie: pl("nokey")},
@@ -1113,7 +1210,7 @@ func add(w *vh.W, res *result) {
 	w.Count("config", fmt.Sprintf("hashed=%v/%d", res.c.UH, res.c.HV))
 	for _, o := range res.c.Ops {
 		w.Count("op", o.K)
-		if o.K == "probe" {
+		if o.K == "probe" || o.K == "probe_race" {
 			w.Count("probe_status", fmt.Sprint(o.Obs[0]))
 		}
 		if o.K == "cmp_pw" || o.K == "cas_pw" || o.K == "set_pw" {
@@ -1127,7 +1224,7 @@ func add(w *vh.W, res *result) {
 
 func main() {
 	w := vh.New("C44", "From Verif Require Import Base.Prelude Model.C44.", "case", "check")
-	w.Rule = "n/4 histories (hand-picked ones first) of 12-40 operations over <=3 users: create/activate/deactivate/delete user; SetPassword / ComparePassword / CompareAndSetPassword with a pool of 9 passwords (valid, weak, too short, empty, 72 and 73 bytes, prefix pairs); bcrypt hashes of every accepted shape ($2$ $2a$ $2b$ $2x$ $2y$, cost 4-6) and malformed hashes written into the password bucket; authorizations created with a raw token, with only a $influxdb2-sha256/512$ hash, with both, with malformed hashes; status updates, deletes, and re-opening the authorization store with hashing on/off and sha256/sha512 (token migration); sessions with far/past/short expiry, explicit renew/expire, waits; probe requests through AuthenticationHandler with 14 scheme spellings, known/unknown/hashed/jwt-shaped/empty tokens, cookie, both, neither, renewal on/off. 3n/4 byte-level Authorization headers for http.GetToken. Non-trivial: a history with an authenticated probe or a successful password check; an accepted header. Distinct: distinct Gallina terms."
+	w.Rule = "n/4 histories (hand-picked ones first) of 12-40 operations over <=3 users: create/activate/deactivate/delete user; SetPassword / ComparePassword / CompareAndSetPassword with a pool of 9 passwords (valid, weak, too short, empty, 72 and 73 bytes, prefix pairs); bcrypt hashes of every accepted shape ($2$ $2a$ $2b$ $2x$ $2y$, cost 4-6) and malformed hashes written into the password bucket; authorizations created with a raw token, with only a $influxdb2-sha256/512$ hash, with both, with malformed hashes; status updates, deletes, and re-opening the authorization store with hashing on/off and sha256/sha512 (token migration); sessions with far/past/short/under-5-min expiry, explicit renew/expire, waits, FindSession keeping the returned object, RenewSession through a session object obtained earlier (after sign-out, after expiry, never stored, live = control), a sign-out landing between the middleware's FindSession and RenewSession; probe requests through AuthenticationHandler with 14 scheme spellings, known/unknown/hashed/jwt-shaped/empty tokens, cookie, both, neither, renewal on/off. 3n/4 byte-level Authorization headers for http.GetToken. Non-trivial: a history with an authenticated probe or a successful password check; an accepted header. Distinct: distinct Gallina terms."
 	var rc jcase
 	if w.ReplayCase(&rc) {
 		if rc.Kind == "hdr" {
